@@ -93,6 +93,9 @@ func handle(req *request) (resp interface{}) {
 		return map[string]interface{}{"s": wire.VerifTypeVariableName(req.Pkg, req.Name, req.Pointer, req.Default, req.Transform, req.Collide)}
 	case "iswireimport":
 		return map[string]interface{}{"b": wire.VerifIsWireImport(req.Name)}
+	case "pathprobe":
+		u, imp, w := wire.VerifPathProbe(req.Name, req.Pkg)
+		return map[string]interface{}{"unvendored": u, "importable": imp, "iswire": w}
 	case "valuecheck":
 		ok, msg := wire.VerifValueCheck(req.Decls, req.Expr)
 		return map[string]interface{}{"ok": ok, "msg": msg}
